@@ -8,6 +8,7 @@ import world
 import worldscen as ws
 import cmdline
 import gen_rules
+import mdshapes
 
 MUTATING = {'renameat', 'unlinkat', 'unlink', 'utimensat', 'fprintf', 'write', 'mkostemp', 'mkstemp', 'mkdir', 'mkdtemp', 'rmdir', 'fork'}
 
@@ -50,7 +51,9 @@ def one(tools, W, spec, conformable=True):
         for flag in ('-d', '-n'):
             scen.reset()
             scen.args = [flag] + list(spec.args)
-            r = scen.run()
+            # a scenario may name one call that fails (mdshapes: a directory that cannot be read): the index of that call in THIS run
+            fail = mdshapes.fault_plan(scen, spec.fail_on) if getattr(spec, 'fail_on', None) else None
+            r = scen.run(fail=fail)
             probs = tree_equal(scen.initial, r.final) + dirs_equal(scen)
             left = ws.tmp_entries(r.final)
             if left:
@@ -87,8 +90,15 @@ def one(tools, W, spec, conformable=True):
                 conform, detail = world.compare(scen, r, ans)
                 if conform != 'ok':
                     conform = conform + ': ' + detail[:300]
+            if getattr(spec, 'shape', None) and flag == '-d' and spec.broken and spec.walks_brk:
+                # C04 under -d: a configured maildir that cannot be read is an error of the run, and it is said which one
+                if r.status == 0:
+                    probs.append('-d over a maildir that cannot be read (%s): exit status 0' % spec.shape)
+                if b'brk' not in r.err:
+                    probs.append('-d over a maildir that cannot be read (%s): no diagnostic names it: %r' % (spec.shape, r.err[-200:]))
             out.append({'scenario': spec.name, 'flag': flag, 'status': r.status, 'problems': probs, 'conform': conform,
-                        'ncalls': len(calls), 'config': scen.config.replace(scen.root, '@R@')[:600],
+                        'ncalls': len(calls), 'config': scen.config.replace(scen.root, '@R@')[:600], 'fault_plan': fail,
+                        'stderr': r.err[-300:].decode('latin-1').replace(scen.root, '@R@'),
                         'explained': flag == '-d' and b'^' in r.out and b'$\n' in r.out})
         return out
     finally:
@@ -333,10 +343,19 @@ def run(rep):
     what = {s.name: s.what for s in cspecs}
     stdin_msg = {s.name: s.stdin for s in cspecs if s.kind == 'stdin'}
     specs += [(s, True) for s in cspecs]
+    # maildirs that are not complete maildirs (a sub-directory missing, a file or a link in its place, unreadable), alone, next to a
+    # healthy maildir and as a destination: -d / -n leave them exactly as they are
+    sspecs = mdshapes.specs(rep.tier)
+    shape_of = {s.name: {'shape': s.shape, 'layout': s.layout, 'action': s.action,
+                         'tree': sorted(k + ('/' if v is None else ' -> ' + v[1] if isinstance(v, tuple) else '') for k, v in s.tree.items()
+                                        if k.split('/')[0] in ('brk', 'real', 'elsewhere'))} for s in sspecs}
+    specs += [(s, s.conformable) for s in sspecs]
     results = []
     with cf.ThreadPoolExecutor(vlib.NCPU) as ex:
         for res in ex.map(lambda sp: one(tools, W, sp[0], sp[1]), specs):
             results.extend(res)
+        sreal = list(ex.map(lambda sp: mdshapes.run_real(tools, sp), sspecs))
+    results.extend(sreal)
     # (b) single faults under -d: every stdin scenario (spool set-up, reading, tear-down), two with explanations to print, and maildir ones
     corpus = ws.corpus()
     fspecs = [s for s in corpus if s.kind == 'stdin'] + [s for s in cspecs if s.kind == 'stdin'][:2]
@@ -360,6 +379,8 @@ def run(rep):
                                           'config': r['config']},
                                          **({'content_case': what[r['scenario']], 'stdin_message': repr(stdin_msg.get(r['scenario'], b''))[:1500]}
                                             if r['scenario'] in what else {}),
+                                         **({'maildir_shape': shape_of[r['scenario']], 'fault_plan': r.get('fault_plan'), 'stderr': r.get('stderr')}
+                                            if r['scenario'] in shape_of else {}),
                                          **({'every_maildir_also_holds': {rel[2:]: 'mtime = pinned clock %+d s' % (t // 10**9 - ws.NOW)
                                                                           for rel, t in sorted(ws.clutter('M')[1].items())}}
                                             if r['scenario'].endswith('+clutter') else {})))
@@ -369,6 +390,8 @@ def run(rep):
         if r['problems']:
             rep.finding('unlisted', {'scenario': r['scenario'], 'option': '-d', 'fault_plan': r['plan'], 'call': r['call'], 'exit_status': r['status'],
                                      'what': r['problems'][:6], 'config': r.get('config', ''), 'stderr': r.get('stderr', '')})
+    # (d) every value taken from the environment at lengths around the buffer it is copied into (tools/envlen.py): -d changes nothing, -n opens nothing
+    import envlen; rep.coverage['environment_length'] = envlen.stage(rep, sc, tools, modes=('dry', 'syntax', 'dry-stdin', 'syntax-stdin'), tier=rep.tier, focus='dry')
     if corr_bad and not rep.violations:
         rep.violation({'obligation': 'correspondence: a -d / -n run does not follow Model.mainP', 'disagreements': len(corr_bad),
                        'examples': corr_bad[:6]}, False)
@@ -390,6 +413,21 @@ def run(rep):
         'correspondence_mismatches': len(corr_bad),
         'maildirs_in_use': {'configurations': len(cluttered),
                             'conform_ok': len([r for r in results if r['scenario'].endswith('+clutter') and r['conform'] == 'ok'])},
+        'maildir_shapes': {
+            'configurations': len(sspecs), 'shapes': sorted(mdshapes.SHAPES), 'layouts': sorted(mdshapes.LAYOUTS),
+            'dry_runs_reporting_the_unreadable_maildir': len([r for r in results if r['scenario'] in shape_of and r['flag'] == '-d' and r['status'] == 1]),
+            'real_runs': len(sreal), 'real_runs_reporting_an_error': len([r for r in sreal if r['status'] not in (0,)]),
+            'real_runs_that_moved_messages_of_the_healthy_maildir': len([r for r in sreal if r.get('moved')]),
+            'conform_ok': len([r for r in results if r['scenario'] in shape_of and r['conform'] == 'ok']),
+            'rule': 'a configured maildir in %d shapes (new/, cur/, both or tmp/ missing; a regular file, a link to a directory or a dangling '
+                    'link in the place of a sub-directory; the root missing, a file, a link to a maildir; opendir of new/ or cur/ failing with '
+                    'EACCES from the shim) x %d layouts (alone; first / last of two maildirs of one block; in a block before / after the block of a '
+                    'healthy maildir; as the destination of a move) x move / flag: -d and -n judged like every other configuration - the tree '
+                    'incl. the modification times of all directories (backdated) is exactly as before, no mutating call, -n opens nothing - and -d '
+                    'exits non-zero with a diagnostic naming the maildir it could not read; the real run of the same scenario: non-zero exit and a '
+                    'diagnostic iff mdsort needs a directory that is not there, no directory or link created, removed or changed, every message '
+                    'exactly once and unchanged, the messages of the healthy maildir at their destination' % (len(mdshapes.SHAPES), len(mdshapes.LAYOUTS)),
+        },
         'explanation_content': {
             'configurations': len(cspecs), 'stdin_mode': len([s for s in cspecs if s.kind == 'stdin']),
             'dry_runs_that_printed_an_explanation': len([r for r in results if r['scenario'] in what and r['flag'] == '-d' and r.get('explained')]),
